@@ -60,6 +60,34 @@ fn native_spec() {
         if m.try_remove_one::<u16>("port").ok().flatten() != Some(80) || m.try_get_one::<u16>("port").ok().flatten().is_some() {
             println!("SPEC-REPLAY MISMATCH target={target} case=a correctly typed remove did not take the value out");
         }
+    } else if target == "validate_exclusive" {
+        // C03: an exclusive argument is present alone.  a, b exclusive; c ordinary; d has a default.
+        for bits in 0..8u8 {
+            let (a, b, c) = (bits & 1 != 0, bits & 2 != 0, bits & 4 != 0);
+            let cmd = Command::new("p")
+                .arg(Arg::new("a").long("a").action(ArgAction::SetTrue).exclusive(true))
+                .arg(Arg::new("b").long("b").action(ArgAction::Set).exclusive(true))
+                .arg(Arg::new("c").long("c").action(ArgAction::SetTrue))
+                .arg(Arg::new("d").long("d").action(ArgAction::Set).default_value("dflt"));
+            let mut argv = vec!["p"];
+            if a {
+                argv.push("--a");
+            }
+            if b {
+                argv.extend(["--b", "x"]);
+            }
+            if c {
+                argv.push("--c");
+            }
+            let n = a as u8 + b as u8 + c as u8;
+            let expect_conflict = (a || b) && n > 1;
+            match cmd.try_get_matches_from(argv.clone()) {
+                Ok(_) if expect_conflict => println!("SPEC-REPLAY MISMATCH target=validate_exclusive case={argv:?}: accepted although an exclusive argument is not alone"),
+                Err(e) if !expect_conflict => println!("SPEC-REPLAY MISMATCH target=validate_exclusive case={argv:?}: rejected as {:?}", e.kind()),
+                Err(e) if e.kind() != ErrorKind::ArgumentConflict => println!("SPEC-REPLAY MISMATCH target=validate_exclusive case={argv:?}: rejected as {:?}, expected ArgumentConflict", e.kind()),
+                _ => {}
+            }
+        }
     } else if target == "phase_order" {
         // C06: command line > environment > default, also on the error-ignoring recovery path
         #[cfg(feature = "env")]
@@ -134,6 +162,26 @@ fn native_spec() {
         }
         let _ = n;
     } else if target == "verify_num_args" || target == "needs_more_vals" {
+        // a delimiter does not change how many ARGV TOKENS an option takes
+        for (argv, want_opt, want_pos) in [
+            (vec!["p", "-o", "a,b", "c", "d", "x"], vec!["a", "b", "c", "d"], vec!["x"]),
+            (vec!["p", "-o", "a", "b,c", "d", "x"], vec!["a", "b", "c", "d"], vec!["x"]),
+            (vec!["p", "-o", "a,b,c", "x"], vec!["a", "b", "c", "x"], vec![]),
+        ] {
+            let cmd = Command::new("p")
+                .arg(Arg::new("o").short('o').num_args(1..=3).value_delimiter(',').action(ArgAction::Set))
+                .arg(Arg::new("rest").num_args(0..).action(ArgAction::Append));
+            match cmd.try_get_matches_from(argv.clone()) {
+                Ok(m) => {
+                    let o: Vec<String> = m.get_many::<String>("o").map(|v| v.cloned().collect()).unwrap_or_default();
+                    let r: Vec<String> = m.get_many::<String>("rest").map(|v| v.cloned().collect()).unwrap_or_default();
+                    if o != want_opt || r != want_pos {
+                        println!("SPEC-REPLAY MISMATCH target={target} case={argv:?} with num_args(1..=3) and delimiter ',': option={o:?} positional={r:?}, expected {want_opt:?} / {want_pos:?}");
+                    }
+                }
+                Err(e) => println!("SPEC-REPLAY MISMATCH target={target} case={argv:?}: rejected as {:?}", e.kind()),
+            }
+        }
         // option --o with num_args(lo..=hi), k values given, then end of line
         for lo in 0..4usize {
             for hi in lo..4usize {
